@@ -790,6 +790,23 @@ pub fn rand_dur(rng: &mut StdRng) -> Duration {
     }
 }
 
+/// the boundary values of a value class (finite floats only: the macro arguments are judged by exact text)
+fn boundary_vals(class: &str) -> Vec<V> {
+    match class {
+        "i64" => vec![V::I64(i64::MIN), V::I64(i64::MAX), V::I64(-1), V::I64(0)],
+        "i32" => vec![V::I32(i32::MIN), V::I32(i32::MAX)],
+        "u64" => vec![V::U64(0), V::U64(u64::MAX), V::U64(i64::MAX as u64 + 1), V::U64(u32::MAX as u64 + 1)],
+        "u32" => vec![V::U32(u32::MAX), V::U32(0)],
+        "f64" => vec![V::F64(-0.0), V::F64(2.5), V::F64(1e300), V::F64(5e-324), V::F64(-1.0)],
+        "dur" => vec![V::Dur(Duration::new(0, 0)), V::Dur(Duration::new(0, 999_999)), V::Dur(Duration::new(u64::MAX, 999_999_999)),
+                      V::Dur(Duration::new(18_446_744_073, 709_551_615 % 1_000_000_000))],
+        "vu64" => vec![V::VU64(vec![]), V::VU64(vec![u64::MAX, 0, 7])],
+        "vf64" => vec![V::VF64(vec![]), V::VF64(vec![-0.0, 1.5])],
+        "vdur" => vec![V::VDur(vec![]), V::VDur(vec![Duration::new(1, 0), Duration::new(u64::MAX, 0)])],
+        _ => vec![],
+    }
+}
+
 fn rand_val(rng: &mut StdRng, class: &str, finite_only: bool) -> V {
     let n = match rng.random_range(0..10) {
         0 => 0,
@@ -1031,6 +1048,24 @@ pub fn macro_child(a: &Args) {
     let prefuse = [0.0, 0.3][rng.random_range(0..2)];
     let mut calls: Vec<Call> = shapes.iter().filter(|s| shape_to_call(s).0.prefix() == cfg.prefix()).map(|s| shape_to_call(s).1).collect();
     if calls.is_empty() {
+        // boundary sweep first (never left to the seed): every macro entry with every boundary value of its value class
+        for entry in MACRO_ENTRIES.iter() {
+            let (_, class) = entry_info(entry);
+            for val in boundary_vals(class) {
+                calls.push(Call {
+                    entry: entry.to_string(),
+                    form: "macro".into(),
+                    key: "b".into(),
+                    val,
+                    rate: None,
+                    tags: if calls.len() % 2 == 0 { vec![] } else { vec![Tag { k: Some("bk".into()), v: "bv".into() }] },
+                    cid: None,
+                    ts: None,
+                    order: 0,
+                    clean: true,
+                });
+            }
+        }
         for _ in 0..ncalls {
             let entry = MACRO_ENTRIES[rng.random_range(0..MACRO_ENTRIES.len())];
             let (_, class) = entry_info(entry);
